@@ -72,6 +72,10 @@ def gen(tier, rng):
     # "unless both ends explicitly enabled plain": meshes in which all / some nodes enabled it (a session is unencrypted only where both did)
     yield nodegen.forge_script(r, "node-forged-seals", r.choice([1, 2, 3]))
     yield nodegen.plain_script(r, "node-plain-all", [True, True, True])
+    # a peer that ran 'plain' restarts WITHOUT it: from then on everything towards it must be sealed (and the other way round)
+    plain, sealed = nodegen.algos_str(True, [("chacha", 400.0)]), nodegen.algos_str(False, [("chacha", 400.0)])
+    yield nodegen.reconfig_restart_script(r, "node-restart-plain-to-sealed", (plain, nodegen.algos_str(True, [])), (None, sealed))
+    yield nodegen.reconfig_restart_script(r, "node-restart-sealed-to-plain", (plain, sealed), (None, nodegen.algos_str(True, [])))
     yield nodegen.plain_script(r, "node-plain-mixed", [True, False, "only"])
     if thorough:
         yield nodegen.plain_script(r, "node-plain-switch", [True, "only", True, False], mode="switch", dev="tap", seconds=12)
